@@ -130,6 +130,8 @@ def run(F, chk):
     check_active_shortcut(F, G10)
     G12 = chk.rule('G12', 'stream filter: a message is counted as filtered out only on a path that evaluated a quantification over a filter collection with Filter::matches')
     check_drop_needs_verdict(F, sf, G12)
+    G13 = chk.rule('G13', 'filters are never removed from a Vec<Filter> by predicate or position (push / pop of the last pushed only)')
+    check_filter_set_maintenance(F, G13)
 
 
 ALL_KINDS = frozenset(['Positive', 'Negative', 'Marker', 'Event'])
@@ -583,6 +585,26 @@ def check_drop_needs_verdict(F, sf, G12):
                     c2 = comparators.closure_path_of(F, b, a)
                     if c2 is not None and any(x.term.callee.path.endswith('Filter::matches') for x in c2.calls()):
                         quants.add(blk.i)
+        # the decision may be delegated to a local closure / helper (`let passes = |m| ..any(matches)..`): calling it is the verdict
+        def has_quant(x):
+            for blk2 in x.calls():
+                t2 = blk2.term
+                if QUANT.search(t2.callee.path) and t2.args and FILTER in (t2.args[0].ty or ''):
+                    for a2 in t2.args[1:]:
+                        if '{closure@' in (a2.ty or ''):
+                            c3 = comparators.closure_path_of(F, x, a2)
+                            if c3 is not None and any(y.term.callee.path.endswith('Filter::matches') for y in c3.calls()):
+                                return True
+            return False
+        for blk in b.calls():
+            tgt = None
+            if blk.term.callee.resolved:
+                tgt = F.get(blk.term.callee.resolved)
+            if tgt is None:
+                tgt = F.get(blk.term.callee.path)
+            if tgt is not None and tgt.path != b.path and (tgt.closure_of == b.path or tgt.path.startswith('adlt::filter::')) and tgt.ret_type() == 'bool' and has_quant(tgt):
+                quants.add(blk.i)
+                G12.fn(tgt.path)
         recvs = [blk.i for blk in b.calls() if re.search(r'mpsc::Receiver::<T>::(recv|recv_timeout|try_recv)$', blk.term.callee.path) or
                  (blk.term.callee.path == 'std::iter::Iterator::next' and 'mpsc::' in (blk.term.args[0].ty or ''))]
         drops = []
@@ -592,7 +614,7 @@ def check_drop_needs_verdict(F, sf, G12):
             for s in blk.stmts:
                 if s.k == 'assign' and s.place.is_local and s.place.l == dropped and s.rv['k'] == 'use' and Operand(s.rv['o']).place is not None and Operand(s.rv['o']).place.p:
                     drops.append(blk.i)
-        G12.floor('quantifications with Filter::matches in the stream filter', len(quants), 2)
+        G12.floor('quantifications with Filter::matches (or calls of a deciding closure/helper) in the stream filter', len(quants), 1)
         G12.floor('receive sites', len(recvs), 1)
         G12.floor('increments of the filtered-out counter', len(drops), 1)
         from paths import Explorer
@@ -641,3 +663,44 @@ def check_drop_needs_verdict(F, sf, G12):
                 G12.violation(('dropped-without-verdict', b.path), '%s can count a message as filtered out at %s on a path from the receive that evaluates no filter at all: the decision is taken by something other than '
                               'the positive/negative filters' % (b.path, b.loc(b.blocks[d].term.sp)), where=b.loc(b.blocks[d].term.sp))
     G12.floor('filtered-out counter increments checked', n, 1)
+
+
+# ---------------------------------------------------------------------------------------------
+# G13: configured filters never leave a filter set
+
+FILTER_VEC_OK = {'push': 'adds a filter', 'pop': 'removes the filter pushed last (the export plugin replaces its own internal lifecycle filter this way)',
+                 'len': 'read-only', 'is_empty': 'read-only', 'iter': 'read-only', 'as_slice': 'read-only', 'deref': 'read-only', 'with_capacity': 'construction',
+                 'new': 'construction', 'capacity': 'read-only', 'first': 'read-only', 'last': 'read-only', 'get': 'read-only', 'clone': 'copy', 'reserve': 'capacity only',
+                 'extend': 'adds filters', 'append': 'adds filters', 'extend_from_slice': 'adds filters', 'iter_mut': 'in-place access'}
+FILTER_VEC_BAD = {'retain': 'removes every filter the predicate rejects - also filters the user configured', 'retain_mut': 'removes filters by predicate',
+                  'remove': 'removes a filter by position', 'swap_remove': 'removes a filter by position', 'clear': 'removes all filters', 'truncate': 'removes filters',
+                  'drain': 'removes filters', 'split_off': 'removes filters', 'dedup': 'removes filters', 'dedup_by': 'removes filters', 'dedup_by_key': 'removes filters'}
+
+
+def check_filter_set_maintenance(F, G13):
+    """Once a filter set is built, an enabled negative filter keeps its veto (and every positive/event filter its say) for the
+    whole run: code may add filters and may pop the one it pushed last, but never removes filters by predicate or position
+    from a `Vec<Filter>` - that would silently drop filters the user configured.  Who-may-call rule over every operation
+    on a Vec<Filter> in library and binary."""
+    n = 0
+    for b in F.order:
+        if '::tests' in b.path:
+            continue
+        for blk in b.calls():
+            t = blk.term
+            if not t.args or not re.search(r'Vec<adlt::filter::(filter_impl::)?Filter>', t.args[0].ty or ''):
+                continue
+            m = re.match(r'std::vec::Vec::<T(, A)?>::(\w+)$', t.callee.path)
+            if not m:
+                continue
+            op = m.group(2)
+            n += 1
+            G13.sites += 1
+            G13.fn(b.closure_of or b.path)
+            if op in FILTER_VEC_BAD:
+                G13.violation(('filter-removed-from-set', b.closure_of or b.path, op), '%s calls Vec::%s on a filter collection at %s: %s' % (b.path, op, b.loc(t.sp), FILTER_VEC_BAD[op]), where=b.loc(t.sp))
+            elif op in FILTER_VEC_OK:
+                G13.ok(sample={'function': b.closure_of or b.path, 'operation': op, 'why_ok': FILTER_VEC_OK[op]})
+            else:
+                G13.violation(('filter-set-operation-unreviewed', b.closure_of or b.path, op), '%s calls Vec::%s on a filter collection at %s: not a reviewed operation' % (b.path, op, b.loc(t.sp)), where=b.loc(t.sp))
+    G13.floor('operations on Vec<Filter> collections', n, 8)
